@@ -1,6 +1,8 @@
 import Pyrtma.Drv.Util
 import Pyrtma.Spec.DataLog
 import Pyrtma.Spec.DataLogFmt
+import Pyrtma.Spec.DataLogFine
+import Pyrtma.Spec.DataLogFiles
 /-! Line-protocol driver for M10 (grammar: see harness/datalog_corr.py). -/
 namespace Pyrtma.Drv.DataLog
 open Pyrtma.DataLog Pyrtma.DataLog.Fmt Pyrtma.Drv
@@ -28,6 +30,16 @@ structure Case where
   obs : String := ""
   tr : String := ""
   files : List (Nat × List Nat) := []      -- (data set, ids) in arrival order
+  -- G
+  kinds : List Fine.Kind := []
+  faults : List Nat := []
+  alive : Bool := false
+  audit : List String := []
+  unk : Bool := false                      -- some file of the implementation was not decodable / not looked at
+  fmts : List String := []                 -- formatter of each data set: raw json ql csv
+  encs : List (Nat × FMsg × List Char) := []
+  fbs : List (Nat × List Nat) := []        -- (data set, bytes of a file) in file order
+  hasBytes : Bool := false
   -- F
   fmt : String := ""
   H : Nat := 0
@@ -79,6 +91,36 @@ def cut {α} : List Nat → List α → List (List α)
   | [], _ => []
   | n :: ns, l => l.take n :: cut ns (l.drop n)
 
+def encOf (c : Case) : Enc :=
+  { frame := fun m => ((c.encs.find? (·.1 == m.id)).map (·.2.1)).getD ⟨[], []⟩,
+    text := fun m => ((c.encs.find? (·.1 == m.id)).map (·.2.2)).getD [] }
+
+/-- byte-level tie of a scheduled session: the model's files (`mf i` = the batches each file of data set `i`
+received) rendered through the formatter model against the bytes on disk; the files-read-back clauses of the Spec
+on the bytes on disk -/
+def bytesCheck (c : Case) (n : Nat) (sel : Nat → Sel) (mf : Nat → List (List (List Msg))) : List String × Option String :=
+  if !c.hasBytes then ([], none) else
+  let e := encOf c
+  let res := (List.range n).map (fun i =>
+    let fmt := c.fmts.getD i "csv"
+    let impl : List (List Nat) := (c.fbs.filter (fun (p : Nat × List Nat) => p.1 == i)).map (·.2)
+    let acc := accepted (sel i) false c.ops
+    if fmt == "raw" then
+      let m := (mf i).map (renderRaw e)
+      (if m == impl then none else some s!"bytes ds={i} raw model-lens={m.map List.length} impl-lens={impl.map List.length}",
+       if rawFilesReadBack c.H c.ndbOff (acc.map e.frame) impl then none else some s!"fail raw_files_read_back ds={i}")
+    else if fmt == "ql" then
+      let m := (mf i).map (renderQL c.H e)
+      (if m == impl then none else some s!"bytes ds={i} ql model-lens={m.map List.length} impl-lens={impl.map List.length}",
+       if qlFilesReadBack c.ndbOff (acc.map e.frame) impl then none else some s!"fail ql_files_read_back ds={i}")
+    else if fmt == "json" then
+      let m := (mf i).map (renderJson e)
+      let implc := impl.map (·.map Char.ofNat)
+      (if m == implc then none else some s!"bytes ds={i} json model-lens={m.map List.length} impl-lens={impl.map List.length}",
+       if jsonFilesReadBack (acc.map e.text) implc then none else some s!"fail json_files_read_back ds={i}")
+    else (none, none))
+  ((res.filterMap (·.1)).map (fun d => s!"{c.id} CORR diff {d}"), (res.filterMap (·.2)).head?)
+
 def finishS (c : Case) : List String :=
   let cfg := cfgOf c
   let sched := c.sched ++ roundRobin (c.tail / 2)
@@ -103,7 +145,9 @@ def finishS (c : Case) : List String :=
         let v := verdict (accepted (cfg.sel i) false c.ops) files
         if v == "ok" then none else some s!"{v} ds={i}")
       bad.headD "ok"
-  [corr, s!"{c.id} PROP C17 {prop}"]
+  let (bc, bp) := if st.rpc = .done then bytesCheck c cfg.n cfg.sel (fun i => (st.ds i).fileBatches) else ([], none)
+  let prop := if prop == "ok" then bp.getD "ok" else prop
+  [corr] ++ bc ++ [s!"{c.id} PROP C17 {prop}"]
 
 def finishF (c : Case) : List String :=
   let parts := cut c.part c.msgs
@@ -140,16 +184,86 @@ def finishF (c : Case) : List String :=
     [corr, s!"{c.id} PROP C17 {prop}"]
   else [s!"{c.id} CORR ok", s!"{c.id} PROP C17 skip"]
 
+def parseKind (s : String) : Fine.Kind :=
+  if s == "ql" then .ql else if s == "csv" then .csv else .plain
+
+def cfgG (c : Case) : Fine.Cfg :=
+  { n := c.dss.length, sel := fun i => (c.dss.getD i (.all, 0)).1,
+    interval := fun i => (c.dss.getD i (.all, 0)).2, kind := fun i => c.kinds.getD i .plain,
+    period := c.period, aliveCheck := c.alive, fault := fun k => c.faults.contains k }
+
+def statusG (cfg : Fine.Cfg) (s : Fine.State) : String :=
+  match s.rpc with
+  | .done => "done" | .raisedT => "raise:DataCollectionThreadError" | .raisedIO => "raise:IO"
+  | _ => if s.hung cfg then "hang" else "stuck"
+
+def tidG : Tid → Fine.Tid
+  | .R => .R
+  | .W => .W
+
+def finishG (c : Case) : List String :=
+  let cfg := cfgG c
+  let sched := (c.sched.map tidG) ++ Fine.roundRobin (c.tail / 2)
+  let (st, tr) := Fine.runTrace cfg c.ops sched
+  let fired := Fine.firedB cfg st
+  let status := statusG cfg st
+  let mObs := s!"{status} warn={st.warn} wdead={if st.wpc = .dead then 1 else 0} fired={if fired then 1 else 0}"
+  let mTr := joinSp tr
+  let mFiles : List String := (List.range cfg.n).flatMap (fun i =>
+    (st.ds i).fileLogs.map (fun f => joinSp [toString i, if status == "done" then showIds f else "?"]))
+  let iFiles : List String := c.files.map (fun p => joinSp [toString p.1, joinSp (p.2.map toString)])
+  let iFilesQ : List String := if c.unk then c.files.map (fun p => joinSp [toString p.1, "?"]) else iFiles
+  let corr :=
+    if !c.audit.isEmpty then s!"{c.id} CORR diff locality {c.audit}"
+    else if mObs != c.obs then s!"{c.id} CORR diff obs model=[{mObs}] impl=[{c.obs}]"
+    else if mTr != c.tr then s!"{c.id} CORR diff trace model=[{mTr}] impl=[{c.tr}]"
+    else if mFiles != iFilesQ then s!"{c.id} CORR diff files model={mFiles} impl={iFilesQ}"
+    else s!"{c.id} CORR ok"
+  -- the Spec on the implementation's observation
+  let iFired := c.obs.endsWith "fired=1"
+  let o : Option Fine.Outcome :=
+    if c.obs.startsWith "done" then some Fine.Outcome.done else if c.obs.startsWith "raise" then some Fine.Outcome.told
+    else if c.obs.startsWith "hang" then some Fine.Outcome.hang else none
+  let prop :=
+    match o with
+    | none => "fail stop_did_not_return"
+    | some o =>
+      if !Fine.terminates o then "fail stop_hangs_writer_dead"
+      else if !Fine.toldOnFailure iFired o then "fail silent_failure"
+      else if o == Fine.Outcome.told && !iFired then "fail raised_without_failure"
+      else if o == Fine.Outcome.done then
+        let bad := (List.range cfg.n).filterMap (fun i =>
+          let files : List (List Msg) :=
+            (c.files.filter (fun (p : Nat × List Nat) => p.1 == i)).map (fun (p : Nat × List Nat) => p.2.map (msgOfId c.ops))
+          let v := verdict (accepted (cfg.sel i) false c.ops) files
+          if v == "ok" then none else some s!"{v} ds={i}")
+        bad.headD "ok"
+      else "ok"
+  let (bc, bp) := if st.rpc = .done then bytesCheck c cfg.n cfg.sel (fun i => (st.ds i).fileLogs.map (fun l => [l]))
+                  else ([], none)
+  let prop := if prop == "ok" then bp.getD "ok" else prop
+  [corr] ++ bc ++ [s!"{c.id} PROP C17 {prop}"]
+
 def step (c : Case) (line : String) : Case × List String :=
   match toks line with
   | ["CASE", id, "S", period, tail] => ({ id := id, kind := "S", period := natOf period, tail := natOf tail }, [])
   | ["CASE", id, "F", fmt, h, off] => ({ id := id, kind := "F", fmt := fmt, H := natOf h, ndbOff := natOf off }, [])
+  | ["CASE", id, "G", period, tail, alive] =>
+    ({ id := id, kind := "G", period := natOf period, tail := natOf tail, alive := alive == "1" }, [])
+  | ["DS", sel, iv, k] =>
+    ({ c with dss := c.dss ++ [(parseSel sel, natOf iv)], kinds := c.kinds ++ [parseKind k], fmts := c.fmts ++ [k] }, [])
+  | ["HDR", h, off] => ({ c with H := natOf h, ndbOff := natOf off, hasBytes := true }, [])
+  | ["ENC", id, h, d, j] =>
+    ({ c with encs := c.encs ++ [(natOf id, ⟨hexBytes h, hexBytes d⟩, (hexBytes j).map Char.ofNat)] }, [])
+  | ["FB", i, b] => ({ c with fbs := c.fbs ++ [(natOf i, hexBytes b)] }, [])
+  | "FAULTS" :: r => ({ c with faults := (r.filter (· != "-")).map natOf }, [])
+  | ["AUDIT", a] => ({ c with audit := c.audit ++ [a] }, [])
   | ["DS", sel, iv] => ({ c with dss := c.dss ++ [(parseSel sel, natOf iv)] }, [])
   | "OPS" :: r => ({ c with ops := r.filterMap parseOp }, [])
   | ["SCHED", s] => ({ c with sched := parseSched s }, [])
   | "OBS" :: r => ({ c with obs := joinSp r }, [])
   | "TR" :: r => ({ c with tr := joinSp r }, [])
-  | "F" :: i :: ids => ({ c with files := c.files ++ [(natOf i, ids.map natOf)] }, [])
+  | "F" :: i :: ids => ({ c with files := c.files ++ [(natOf i, ids.map natOf)], unk := c.unk || ids.contains "?" }, [])
   | ["M", h, d] => ({ c with msgs := c.msgs ++ [⟨hexBytes h, hexBytes d⟩] }, [])
   | ["J", t] => ({ c with jsons := c.jsons ++ [(hexBytes t).map Char.ofNat] }, [])
   | "PART" :: r =>
@@ -159,7 +273,7 @@ def step (c : Case) (line : String) : Case × List String :=
   | ["FILE", h] => ({ c with file := hexBytes h }, [])
   | ["EXC", e] => ({ c with exc := e }, [])
   | "RD" :: r => ({ c with rd := r.map parseRd }, [])
-  | ["END"] => ({}, if c.kind == "S" then finishS c else finishF c)
+  | ["END"] => ({}, if c.kind == "S" then finishS c else if c.kind == "G" then finishG c else finishF c)
   | _ => (c, [])
 
 def main : IO Unit := do
